@@ -126,13 +126,15 @@ def strandOK (st : St) (s : StrandE) : Bool :=
 
 def structOK (st : St) (x : StructE) : Bool := x.strands.all (fun n => (st.findStrand n).isSome)
 
-/-- the invariant of a loaded component that the theorems of C12 assume -/
-def wfB (t : CodeTable) (st : St) : Bool :=
+/-- the part of the invariant that does not look at constraint strings -/
+def shapeB (st : St) : Bool :=
   decide ((st.seqs.map (·.name)).Nodup)
   && st.seqs.all (seqOK st)
-  && st.seqs.all (constOK t)
   && st.strands.all (strandOK st)
   && st.structs.all (structOK st)
+
+/-- the invariant of a loaded component that the theorems of C12 assume -/
+def wfB (t : CodeTable) (st : St) : Bool := shapeB st && st.seqs.all (constOK t)
 
 open Pepper.Sys in
 /-- every component of an instance tree is well-formed (to the depth the fuel reaches) -/
